@@ -191,6 +191,9 @@ func c06Sites() []c06Site {
 			}
 			return dv[0], true
 		}, false},
+		{"leaf/units-with-typedef-units", c06Hdr + `revision 0; typedef tu { type string; units "typedef-units"; } leaf l { type tu; units ARG; } }`, func(m *meta.Module) (string, bool) { return leafOf(m, "l").(*meta.Leaf).Units(), true }, false},
+		{"leaf-list/units-with-typedef-units", c06Hdr + `revision 0; typedef tu { type string; units "typedef-units"; } leaf-list l { type tu; units ARG; } }`, func(m *meta.Module) (string, bool) { return leafOf(m, "l").(*meta.LeafList).Units(), true }, false},
+		{"typedef/units-with-typedef-units", c06Hdr + `revision 0; typedef tu { type string; units "typedef-units"; } typedef t { type tu; units ARG; } }`, func(m *meta.Module) (string, bool) { return m.Typedefs()["t"].Units(), true }, false},
 		{"leaf-list/units", c06Hdr + `revision 0; leaf-list l { type string; units ARG; } }`, func(m *meta.Module) (string, bool) { return leafOf(m, "l").(*meta.LeafList).Units(), true }, false},
 		{"list/description", c06Hdr + `revision 0; list l { key k; leaf k { type string; } description ARG; } }`, desc("l"), false},
 		{"choice/description", c06Hdr + `revision 0; choice ch { description ARG; leaf a { type string; } } }`, desc("ch"), false},
@@ -444,6 +447,9 @@ func (p *c06) Run(raw json.RawMessage) eng.Result {
 		for _, v := range c06Values {
 			if strings.Contains(site.name, "pattern/value") && (strings.ContainsAny(v, "{}\\+") || v == "") {
 				continue // not a regular expression
+			}
+			if strings.Contains(site.name, "units-with-typedef-units") && v == "" {
+				continue // an empty units statement states nothing: the typedef's units apply
 			}
 			for _, st := range c06Styles {
 				arg, ok := st.render(v)
